@@ -212,6 +212,36 @@ func zzOp(tx *Tx, mask int) error {
 			return nil
 		}
 		return pg.Put([]byte{'p', zz.U8("pgk")}, zzVal(zzValLen(tx.db.pageSize), 'Q'))
+	case 8:
+		zz.Reach("op-move-nested")
+		// move the paged nested bucket "pg" into the inline bucket "in" or into a bucket created in this
+		// very transaction (a later slot may delete the destination again)
+		var dst *Bucket
+		if zz.Choose(2) == 0 {
+			dst = b.Bucket([]byte("in"))
+		} else {
+			var err error
+			dst, err = b.CreateBucketIfNotExists([]byte("nb"))
+			if err != nil {
+				return err
+			}
+		}
+		if dst == nil || b.Bucket([]byte("pg")) == nil {
+			return nil
+		}
+		zz.Reach("op-move-nested-done")
+		return tx.MoveBucket([]byte("pg"), b, dst)
+	case 9:
+		zz.Reach("op-delete-move-destination")
+		name := "in"
+		if zz.Choose(2) == 1 {
+			name = "nb"
+		}
+		err := b.DeleteBucket([]byte(name))
+		if err == ErrBucketNotFound {
+			return nil
+		}
+		return err
 	}
 	return nil
 }
@@ -482,7 +512,9 @@ func HarnessFault() {
 		// blocking, no panic, a clean error, and an intact file after reopening.
 		zz.Reach("remap-failed")
 		err := db.View(func(tx *Tx) error { return nil })
-		zz.AssertUnless(err == nil, true, "fault/usable-after-remap-failure", "C08/remap-failure-leaves-handle-unusable")
+		if zz.Param("usable", 1) == 1 { // C08's "stays usable" clause (not part of C07's accounting claim)
+			zz.AssertUnless(err == nil, true, "fault/usable-after-remap-failure", "C08/remap-failure-leaves-handle-unusable")
+		}
 		zz.Assert(err == nil || err == berrors.ErrInvalidMapping, "fault/remap-failure-clean-error")
 		err = db.Update(func(tx *Tx) error { return nil })
 		zz.Assert(err == nil || err == berrors.ErrInvalidMapping, "fault/remap-failure-clean-error-writer")
